@@ -87,7 +87,10 @@ func TestVerifC09(t *testing.T) {
 	e.everyShard = true
 	docs := vCorpus(t)
 	thr := 0.8
-	c := vBuild(thr, docs)
+	// ref answers the sequential reference calls only; every storm runs on a FRESH
+	// classifier that has never been matched against, so that state which is
+	// initialised lazily on first use is first touched concurrently
+	ref := vBuild(thr, docs)
 	mode := os.Getenv("VERIF_C09_MODE") // race | plain
 	gs := []int{2, 8, 16}
 	if mode == "plain" {
@@ -124,10 +127,20 @@ func TestVerifC09(t *testing.T) {
 			sc := vScenarios()
 			inputs = append(inputs, sc[r.Intn(len(sc))].data)
 			cs.params["target"] = target
-			// sequential reference results, computed alone
+			// sequential reference results, computed alone on the twin classifier
 			want := make([]Results, len(inputs))
 			for i, in := range inputs {
-				want[i] = c.Match(in)
+				want[i] = ref.Match(in)
+			}
+			c := vBuild(thr, docs)
+			// a few reader failures before the storm: error paths must not leave shared
+			// state (pools, caches) behind that later concurrent calls trip over
+			for k := 0; k < 3; k++ {
+				in := inputs[k%len(inputs)]
+				if res, err := c.MatchFrom(&vFailReader{data: in, k: r.Intn(len(in) + 1), together: k%2 == 0}); err != errBoom || len(res.Matches) != 0 {
+					cs.violation("reader-error-not-returned", "MatchFrom with a failing reader returned err=%v and %d matches", err, len(res.Matches))
+					return
+				}
 			}
 			before := vCorpusCanary(c)
 			calls := 3
@@ -163,6 +176,18 @@ func TestVerifC09(t *testing.T) {
 						rec := callrec{g: g, input: i, begin: time.Since(t0)}
 						var got Results
 						var err error
+						if gr.Intn(6) == 0 {
+							// a failing reader in the middle of the storm
+							fres, ferr := c.MatchFrom(&vFailReader{data: inputs[i], k: gr.Intn(len(inputs[i]) + 1), together: gr.Intn(2) == 0, chunk: 1 + gr.Intn(2000)})
+							rec.end = time.Since(t0)
+							rec.ok = ferr == errBoom && len(fres.Matches) == 0 && fres.TotalInputLines == 0
+							if !rec.ok {
+								rec.why = fmt.Sprintf("failing reader: err=%v, %d matches", ferr, len(fres.Matches))
+							}
+							rec.from = true
+							recs[g] = append(recs[g], rec)
+							continue
+						}
 						if gr.Intn(3) == 0 {
 							rec.from = true
 							if gr.Intn(2) == 0 {
